@@ -1443,6 +1443,24 @@ Proof.
 Qed.
 End AddrStep.
 
+(* ---- the server of a session ends when its connection ends -------------------------------------- *)
+Lemma srv_exited_stays evs n : fold_left srv_step evs (SrvExited n) = SrvExited n.
+Proof. induction evs as [|e r IH]; simpl; [reflexivity|exact IH]. Qed.
+
+Lemma srv_requests k : forall n, fold_left srv_step (repeat EvRequest k) (SrvServing n) = SrvServing (k + n).
+Proof.
+  induction k as [|k IH]; intros n; simpl; [reflexivity|]. rewrite IH. f_equal. lia.
+Qed.
+
+(* k ordinary requests, then the end of the connection (close request, EOF - with or without a
+   request ever having been sent, k = 0 included - or undecodable input), then anything: the
+   server process has ended, having answered exactly the k requests *)
+Lemma server_ends k e rest : e <> EvRequest -> srv_run (repeat EvRequest k ++ e :: rest) = SrvExited k.
+Proof.
+  intros He. unfold srv_run. rewrite fold_left_app, srv_requests. simpl.
+  destruct e; try contradiction; simpl; rewrite srv_exited_stays; f_equal; lia.
+Qed.
+
 (* ---- witness schedule of the handle race on the pinned run() (C16_F3_refuted) ------------------ *)
 Definition f3_scripts : list (list op) := [[Prepare]; [Call]].
 Definition f3_schedule : list tid :=
